@@ -97,6 +97,16 @@ func NewEngine(prog *ssa.Program) *Engine {
 		mergeOn: true, liftFns: map[string]bool{}, violSeen: map[string]bool{}, funcsSeen: map[string]bool{}, covers: map[string]map[string]uint64{}, coverSeen: map[string]bool{}, notes: map[string]int64{}}
 }
 
+// concretizeFns: callees that need concrete strings; a symbolic choice among
+// constants is split into its options before the call.
+var concretizeFns = map[string]bool{
+	"github.com/agnivade/levenshtein.ComputeDistance":          true,
+	"github.com/vektah/gqlparser/v2/validator.lexicalDistance": true,
+	"github.com/vektah/gqlparser/v2/validator.calcThreshold":   true,
+	"github.com/vektah/gqlparser/v2/validator.SuggestionList":  true,
+	"strconv.ParseInt": true, "strconv.ParseFloat": true, "strconv.ParseBool": true, "strconv.ParseUint": true,
+}
+
 type unsupported struct{ msg string }
 
 func (e *Engine) unsupported(format string, args ...interface{}) {
@@ -149,6 +159,34 @@ func (e *Engine) callFunction(fn *ssa.Function, args []Value, env []Value, st *S
 	if sv, ok := e.stubs[name]; ok {
 		fv := sv.(*FuncV)
 		return e.callFunction(fv.fn, args, fv.env, st, depth, site)
+	}
+	if concretizeFns[name] {
+		for ai, a := range args {
+			sa, ok := a.(*Str)
+			if !ok || sa.isC || sa.sel == nil {
+				continue
+			}
+			var outs []Outcome
+			for k, o := range sa.opts {
+				c := Eq(sa.sel, BV(uint64(k), sa.sel.w))
+				if c == FF {
+					continue
+				}
+				if d := st.decide(c); d == 0 {
+					continue
+				} else if d < 0 {
+					if e.solver.Check(append(append([]*Term(nil), st.pc...), c)) == ResUnsat {
+						continue
+					}
+				}
+				ns := st.Fork()
+				ns.Assume(c)
+				na := append([]Value(nil), args...)
+				na[ai] = strConst(o)
+				outs = append(outs, e.callFunction(fn, na, env, ns, depth, site)...)
+			}
+			return outs
+		}
 	}
 	if e.liftFns[name] && len(args) == 1 {
 		if t, ok := args[0].(*Term); ok && t.op != OpConst && t.leaves > 1 && t.leaves <= 64 {
@@ -236,11 +274,14 @@ func (e *Engine) mergeOutcomes(outs []Outcome) []Outcome {
 
 func (e *Engine) runFrame(f *frame) {
 	for len(f.work) > 0 {
-		// pick the minimal item
-		mi := 0
-		for i := 1; i < len(f.work); i++ {
-			if f.less(f.work[i], f.work[mi]) {
-				mi = i
+		// pick the minimal item (without merging the order is irrelevant: depth first)
+		mi := len(f.work) - 1
+		if e.mergeOn {
+			mi = 0
+			for i := 1; i < len(f.work); i++ {
+				if f.less(f.work[i], f.work[mi]) {
+					mi = i
+				}
 			}
 		}
 		it := f.work[mi]
